@@ -85,4 +85,27 @@ theorem fromBytes_ok_inv {ck : Bool} {bs : List UInt8} {hd : Header}
   · simpa using c6
   · rw [← h]; congr 1; omega
 
+/-- `from_bytes` on at least 20 bytes, in closed form -/
+theorem fromBytes_cons20 (ck : Bool)
+    (b0 b1 b2 b3 b4 b5 b6 b7 b8 b9 b10 b11 b12 b13 b14 b15 b16 b17 b18 b19 : UInt8)
+    (rest : List UInt8) :
+    fromBytes ck (b0 :: b1 :: b2 :: b3 :: b4 :: b5 :: b6 :: b7 :: b8 :: b9 :: b10 :: b11 :: b12 ::
+        b13 :: b14 :: b15 :: b16 :: b17 :: b18 :: b19 :: rest) =
+      if b0.toNat / 16 ≠ 4 then .error (.err .incorrectIpv4Version)
+      else if b0.toNat % 16 ≠ 5 then .error (.err .invalidHeaderLength)
+      else if b1.toNat % 4 ≠ 0 then .error (.err .usedReservedTos)
+      else if W b2 b3 < b0.toNat % 16 * 4 then .error (.err .invalidTotalLength)
+      else if W b6 b7 / 8192 / 4 % 2 ≠ 0 then .error (.err .usedReservedFlag)
+      else if ¬ matchesField ck
+          (accBytes ck b0 b1 b2 b3 b4 b5 b6 b7 b8 b9 b12 b13 b14 b15 b16 b17 b18 b19) (W b10 b11) then
+        .error (.err (.checksum (W b10 b11)
+          (asU16 ck (accBytes ck b0 b1 b2 b3 b4 b5 b6 b7 b8 b9 b12 b13 b14 b15 b16 b17 b18 b19))))
+      else .ok { ihl := b0.toNat % 16, tos := b1.toNat, totalLength := W b2 b3,
+                 identification := W b4 b5, fragmentOffset := W b6 b7 % 8192,
+                 flags := W b6 b7 / 8192, ttl := b8.toNat, protocol := b9.toNat,
+                 checksum := W b10 b11, source := W4 b12 b13 b14 b15,
+                 destination := W4 b16 b17 b18 b19 } := by
+  simp only [fromBytes, nextU8, nextU16, nextU32]
+  rfl
+
 end Elvis.Codec.Ipv4
